@@ -256,7 +256,7 @@ fn complete_handshake(s: &mut Server, port: u16, cfg: &EndpointConfig, t: u64) -
     true
 }
 
-//@h props=C17 tier=quick timeout=2400 role=server-limits-overlap args=--no-memory-safety-checks
+//@h props=C17 tier=thorough timeout=3000 group=heavy role=server-limits-overlap args=--no-memory-safety-checks
 //@fn Server::{handle_frame, handle_handshake_syn, handle_handshake_ack}
 //@bound limits (max_total 2, max_active 1); addresses A, B; compatible SYNs from both BEFORE any ACK, then both ACKs with the nonces the server generated
 //@assume VecMap; opaque connection model; socket model; nonce source any; crc stubbed
@@ -302,7 +302,7 @@ fn o17_1_total_limit_refuses_with_server_full() {
     std::mem::forget(s);
 }
 
-//@h props=C17 tier=quick timeout=2400 role=server-limits-capacity-returns args=--no-memory-safety-checks
+//@h props=C17 tier=thorough timeout=3600 group=heavy role=server-limits-capacity-returns args=--no-memory-safety-checks
 //@fn Server::{handle_frame, handle_handshake_syn, handle_handshake_ack, handle_disconnect, handle_events, handle_event, drop}, retain of active_clients as in step()
 //@bound limits (1, 1); A connects; A's connection ends by application drop() or by peer Disconnect + closed-state timeout (any); then B's handshake
 //@assume VecMap; opaque connection model; socket model; nonce source any; crc stubbed
@@ -326,6 +326,27 @@ fn o17_1_capacity_returns_after_connection_ends() {
     s.active_clients.retain(|client| client.borrow().is_active());
     let ok = complete_handshake(&mut s, B, &cfg, 30011);
     assert!(ok && class_of(&s, B) == 2 && count_events(&s, B).0 == 1, "[C17] capacity becomes available again when a connection ends");
+    std::mem::forget(s);
+}
+
+//@h props=C17 tier=quick timeout=1800 role=server-limits-active args=--no-memory-safety-checks
+//@fn Server::{handle_frame, handle_handshake_syn, handle_handshake_ack}
+//@bound limits (max_total 2, max_active 1); A completes its handshake; then a compatible SYN from B
+//@assume VecMap; opaque connection model; socket model; nonce source any; crc stubbed; pointer checks off
+#[kani::proof]
+#[kani::unwind(6)]
+#[kani::stub(crate::frame::serial::crc::compute, crate::frame::serial::verif_codec::crc_stub)]
+fn o17_1_active_limit_refuses_syn() {
+    let cfg = EndpointConfig::default();
+    let mut s = mk_server(2, 1, cfg.clone());
+    assert!(complete_handshake(&mut s, A, &cfg, 0));
+    assert!(class_of(&s, A) == 2 && n_established(&s) == 1);
+    let syn_b = ok_syn();
+    s.handle_frame(addr(B), frame::Frame::HandshakeSynFrame(syn_b.clone()), 5);
+    assert!(class_of(&s, B) == 0, "[C17] a handshake that would exceed max_active_connections is refused");
+    let r = s.socket.sent(s.socket.sent_n() - 1);
+    assert!(r.port == B && r.len == 10 && r.head[0] == 3 && r.head[5] == 2 && be32(&r.head, 1) == syn_b.nonce, "[C17] ... with ServerFull");
+    assert!(n_established(&s) == 1 && s.clients.len() == 1);
     std::mem::forget(s);
 }
 
